@@ -269,6 +269,10 @@ pub trait DynGen {
     fn clone_from_dyn(&mut self, src: &dyn DynGen) -> bool;
     /// `None` when the type has no `PartialEq`
     fn eq_dyn(&self, other: &dyn DynGen) -> Option<bool>;
+    /// `a != b` (the operator, not the negation of `==`); `None` when the type has no `PartialEq`
+    fn ne_dyn(&self, _other: &dyn DynGen) -> Option<bool> {
+        None
+    }
     fn jump(&mut self) -> bool;
     fn long_jump(&mut self) -> bool;
     fn snapshot(&self, fmt: SnapFmt) -> Option<Vec<u8>>;
@@ -285,6 +289,15 @@ pub trait DynGen {
 macro_rules! m_eq {
     (yes, $a:expr, $b:expr) => {
         Some($a == $b)
+    };
+    (no, $a:expr, $b:expr) => {{
+        let _ = (&$a, &$b);
+        None
+    }};
+}
+macro_rules! m_ne {
+    (yes, $a:expr, $b:expr) => {
+        Some($a != $b)
     };
     (no, $a:expr, $b:expr) => {{
         let _ = (&$a, &$b);
@@ -362,6 +375,12 @@ macro_rules! det_gens {
                 fn eq_dyn(&self, other: &dyn DynGen) -> Option<bool> {
                     match other.as_any().downcast_ref::<$w>() {
                         Some(o) => m_eq!($eq, self.0, o.0),
+                        None => None,
+                    }
+                }
+                fn ne_dyn(&self, other: &dyn DynGen) -> Option<bool> {
+                    match other.as_any().downcast_ref::<$w>() {
+                        Some(o) => m_ne!($eq, self.0, o.0),
                         None => None,
                     }
                 }
